@@ -1112,7 +1112,7 @@ func main() {
 	run := vx.Start("C07")
 	len2, len3 := 8, 5
 	if !run.Quick() {
-		len2, len3 = 12, 7
+		len2, len3 = 14, 8
 	}
 	inputs := append(seqs(2, len2), seqs(3, len3)...)
 	// longer, structured inputs (lengths the exhaustive part cannot reach): all-equal, alternating,
@@ -1209,6 +1209,9 @@ func main() {
 	single := atomic.LoadInt64(&cases)
 	// programs: ordered pairs (thorough: also triples of a reduced set) of unary instances
 	progInputs := append(seqs(2, 6), seqs(3, 4)...)
+	if !run.Quick() {
+		progInputs = append(seqs(2, 9), seqs(3, 6)...)
+	}
 	var pcombs []intComb
 	for _, c := range combs {
 		if c.name == "First(-1)" || len(c.name) > 5 && c.name[:5] == "First" && c.name > "First(4)" {
